@@ -350,6 +350,9 @@ func (tb *TB) build(v ssa.Value) *Term {
 	case *ssa.MakeSlice:
 		return tb.makeSlice(x)
 	case *ssa.Phi:
+		if x.Comment == "rangeindex" {
+			return mk("RangeIdx", "", v)
+		}
 		var parts []string
 		t := mk("Phi", "", v)
 		for _, e := range x.Edges {
@@ -412,7 +415,7 @@ func (tb *TB) load(x *ssa.UnOp) *Term {
 		}
 		return t
 	case *ssa.Global:
-		if !tb.NoGlobalInit {
+		if !tb.NoGlobalInit && !isErrorType(a.Type().(*types.Pointer).Elem()) {
 			if init := tb.p.globalInit(a); init != nil {
 				return init
 			}
